@@ -1,6 +1,8 @@
 mod fakecli;
 mod frame;
 mod memtransport;
+mod reply;
+mod xmltok;
 mod sshserver;
 mod tlsserver;
 mod util;
@@ -32,6 +34,7 @@ fn main() {
     }
     match op.as_str() {
         "frame" => frame::main(&opts),
+        "reply" => reply::main(&opts),
         _ => {
             eprintln!("unknown op {op}");
             std::process::exit(2);
